@@ -9,4 +9,14 @@ pub mod refs;
 #[cfg(kani)]
 mod c04;
 #[cfg(kani)]
+mod c18;
+#[cfg(kani)]
+mod c15;
+#[cfg(all(kani, feature = "std"))]
+mod c17;
+#[cfg(kani)]
+mod pf;
+#[cfg(kani)]
+mod c03;
+#[cfg(kani)]
 mod smoke;
